@@ -14,6 +14,10 @@ import sys
 sys.path.insert(0, VERIF)
 
 
+# modules are registered only after the maintainer has reviewed them and `./check CNN` exits 0 on the pinned tree
+REGISTERED = ["C01", "C08", "C16", "C17"]
+
+
 def load_claims():
     """each sa/rules/cNN.py that is ready to be registered defines CLAIM = {text, technique, design_ref[, note]}"""
     claims = {}
@@ -22,7 +26,7 @@ def load_claims():
         if f.startswith("c") and f.endswith(".py"):
             mod = importlib.import_module("sa.rules." + f[:-3])
             c = getattr(mod, "CLAIM", None)
-            if c:
+            if c and f[:-3].upper() in REGISTERED:
                 claims[f[:-3].upper()] = c
     return claims
 
